@@ -369,6 +369,7 @@ class Engine:
             self.discharged += 1
             return True
         # counterexample: model of the *whole* pc plus the negation
+        q0 = self.qn if isinstance(self.qn, int) else 0
         self.qn = ('v', self.obligations)
         if not self.check(z3.Not(c), full=True):
             raise EngineError('sliced query sat but full query unsat')
@@ -376,9 +377,10 @@ class Engine:
         # continue on the side where the obligation holds
         self.qn = ('w', self.obligations)
         self.add(c)
-        if not self.check(c):
+        ok = self.check(c)
+        self.qn = q0 + 1        # back to integer ordinals for what follows
+        if not ok:
             raise PathAbort()
-        self.qn = ('x', self.obligations)
         return False
 
     def _violate(self, label, model, info):
